@@ -54,6 +54,9 @@ def expm_krylov(Afunc, dt, vstart: xp.ndarray, block_size=50):
     for j in range(len(vstart)):
         
         w = Afunc(V[j])
+        if xp.iscomplexobj(w) and not xp.iscomplexobj(V):
+            # complex Hermitian A with a real start vector: the Krylov vectors are complex
+            V = V.astype(w.dtype)
         alpha[j] = xp.vdot(w, V[j]).real
 
         if j == len(vstart)-1:
